@@ -154,13 +154,15 @@ CLAIMS['C17'] = dict(
     category='other', design_ref='DESIGN.md section 4 (C17)',
     technique='bit-vector abstract interpretation of every register-view getter/setter and of the wiring helpers for all '
               'constant positions, decision tables of DecodeImmShift/DecodeRegShift/Shift_C dispatch, argument wiring of the '
-              'expand-immediate helpers, AST who-calls rule for the shifter operand width',
+              'expand-immediate helpers, AST who-calls rule for the shifter operand width; the arithmetic primitives interpreted '
+              'with fully symbolic (bit-interleaved) arguments and compared bit for bit with gate-level / per-amount wiring references',
     text='Second sentence of the property decided completely: every named field of every register view reads and writes '
          'exactly its architectural bits (190 fields, 38 classes, indexed accessors for every index) and a field write changes '
-         'no other bit. Of the first sentence only the wiring/table part is decided (slices, insertions, concatenation, '
-         'sign extension, byte reversal, RRX, immediate-shift decoding, Shift_C dispatch, expand-immediate wiring, operand '
-         'width); the numeric results of AddWithCarry, variable-amount shifts, saturation and bit counts are arithmetic over '
-         'run-time values and are declared undecided - no sound static argument in reach.',
+         'no other bit. First sentence: slices, insertions, concatenation, sign extension, byte reversal, RRX, immediate-shift '
+         'decoding, Shift_C dispatch and operand width as wiring/tables; AddWithCarry (sum, carry, overflow), add/sub mod 2^32, '
+         'LSL_C/LSR_C/ASR_C/ROR_C and Shift_C for every amount 0..255 incl. carry-out, ARM/ThumbExpandImm_C for all 4096 '
+         'immediates, SignedSatQ/UnsignedSatQ for every N, to_signed/to_unsigned/sign_extend for every width, BitCount and '
+         'LowestSetBit bit-exactly for every argument value (BDD equality at the widths the instruction set uses).',
     note='Trusted: CPython ast; spec/regfields.json (audited against the manual; one deviation corrected); sa/bitdom.py.')
 
 CLAIMS['C19'] = dict(
@@ -207,8 +209,8 @@ CLAIMS['C01'] = dict(
     text='Decides, for every operand value / flag state / shift amount (properties of all paths of loop-free bodies): which '
          'operands are combined how (ADD..RSC carry-in and inversion roles, logical ops, moves, shifts), which result feeds N, Z, '
          'C, V, that flags change only under setflags, that nothing outside {Rd, PC, NZCV} is written, that Rd == PC takes the '
-         'ALUWritePC path exactly where decode allows d == 15, guard and widths. Not decided: that AddWithCarry / Shift_C / the '
-         'expand-immediate helpers compute the architectural numbers (declared under C17).',
+         'ALUWritePC path exactly where decode allows d == 15, guard and widths; AddWithCarry, Shift_C (every amount, incl. carry) and '
+         'the expand-immediate helpers are compared bit for bit with gate-level references (C01-H).',
     note='Trusted: CPython ast; the role table in sa/props/c01.py (ARM ARM A8 pseudocode); binding through spec/enc_*.json.')
 CLAIMS['C02'] = dict(
     category='other', design_ref='DESIGN.md section 4 (C02)',
